@@ -74,7 +74,8 @@ def run(repo: Repo, rep: Report):
     ]:
         rep.rule(rid, txt)
     _check_gate_raises(repo, rep)
-    _check_cli(repo, rep)
+    from sa.rules import sem as _sem
+    _sem.check_cli(repo, rep, {"options": "R-SITE.options"})
     _check_allowlist(repo, rep, folder)
     sem.check_gate(repo, rep, {"accepts": "R-REGEX.allowlist", "rejects": "R-REGEX.allowlist", "drop": "R-SITE.options"})
     sem.check_traverse(repo, rep, {"paths": "R-REGEX.allowlist"})
@@ -177,41 +178,6 @@ def _cleanup_after_removal(repo, rep, res, order, which=("group-pruning", "orpha
             rep.fail("R-ORDER.cleanup-after-removal", F, f"remove_unpainted_shapes after the last {cleanup}",
                      f"remove_unpainted_shapes deletes shape elements after the last {cleanup} of the pipeline: {what}, so the output "
                      "is not in final form (a second conversion changes it)", svg, fn, path=[f"entry {F}", "simplify (last cleanup)", "remove_unpainted_shapes", "checkpicosvg", "return"])
-
-
-def _check_cli(repo, rep):
-    cli = repo["picosvg"]
-    fn = cli.func("_run")
-    F = "picosvg._run"
-    rep.saw(F)
-    flags = {}
-    for c in ast.walk(cli.tree):
-        if isinstance(c, ast.Call) and call_name(c).startswith("flags.DEFINE_") and c.args and isinstance(c.args[0], ast.Constant):
-            flags[c.args[0].value] = c
-    conv = [c for c in ast.walk(fn) if isinstance(c, ast.Call) and call_name(c).endswith(".topicosvg")]
-    if not conv:
-        rep.fail("R-SITE.options", F, "svg.topicosvg(...)", "the CLI does not call topicosvg", cli, fn)
-        return
-    for opt in ("allow_text", "drop_unsupported"):
-        if opt not in flags:
-            rep.fail("R-SITE.options", F, f"flags.DEFINE_bool({opt!r})", f"CLI flag {opt} is not defined", cli, fn)
-            continue
-        v = kwarg(conv[0], opt)
-        if v is None or unparse(v) != f"FLAGS.{opt}":
-            rep.fail("R-SITE.options", F, conv[0], f"CLI flag --{opt} is not passed to topicosvg({opt}=FLAGS.{opt})", cli, conv[0])
-        else:
-            rep.ok("R-SITE.options", f"{F}: topicosvg({opt}=FLAGS.{opt})")
-    for k in conv[0].keywords:
-        if k.arg and isinstance(k.value, ast.Attribute) and unparse(k.value).startswith("FLAGS.") and unparse(k.value) != f"FLAGS.{k.arg}":
-            rep.fail("R-SITE.options", F, conv[0], f"keyword {k.arg} is fed from {unparse(k.value)}", cli, conv[0])
-    clip = [c for c in ast.walk(fn) if isinstance(c, ast.Call) and call_name(c).endswith(".clip_to_viewbox")]
-    if clip:
-        guarded = isinstance(parent(parent(clip[0])), ast.If) and unparse(parent(parent(clip[0])).test) == "FLAGS.clip_to_viewbox"
-        after = clip[0].lineno > conv[0].lineno
-        if guarded and after:
-            rep.ok("R-SITE.options", f"{F}: clip_to_viewbox only under its flag, after the conversion")
-        else:
-            rep.fail("R-SITE.options", F, clip[0], "clip_to_viewbox is not applied after the conversion under --clip_to_viewbox only", cli, clip[0])
 
 
 def _check_allowlist(repo, rep, folder):
